@@ -146,12 +146,23 @@ def dkimOp : List String → String
             else if headerInput opts cfg ts m != hookHdr then mismatch "dkim-header-input" (headerInput opts cfg ts m)
             else
               let m' := sign opts (fun _ => sigUsed) cfg ts m
-              if m'.format != after then mismatch "dkim-signed-message" m'.format else "ok"
+              if m'.format != after then mismatch "dkim-signed-message" m'.format else
+              -- the hypotheses of `C13.header_input_agrees_relaxed`, evaluated on this real message
+              if cfg.hc != .relaxed then "ok" else
+              let bh := bhOf opts cfg m
+              let noSemi (x : Bytes) : Bool := x.all (· != 59)
+              let cfgOk := noSemi cfg.alg && noSemi cfg.domain && noSemi cfg.selector && noSemi (hList cfg) && noSemi bh
+              let plain := (HeaderEnc.splitInclusive [] (headerValue cfg ts bh [])).all fun w =>
+                w.all (HeaderEnc.allowedChar true) && !HeaderEnc.hasEncMarker w
+              let sigOkB := sigUsed.all fun c => (65 ≤ c.toNat && c.toNat ≤ 90) || (97 ≤ c.toNat && c.toNat ≤ 122) ||
+                (48 ≤ c.toNat && c.toNat ≤ 57) || c == 43 || c == 47 || c == 61
+              let sg := m.signable opts cfg.names
+              if cfgOk && plain && sigOkB && uniqueNames sg && sg.all mailFieldOk then "ok-hyp" else "ok-nohyp"
           | _, _ => "MISMATCH dkim-parse model=-"
-        if verdict != "ok" then verdict else
+        if !(verdict.startsWith "ok") then verdict else
         match finding with
         | some f => propfail f
-        | none => "ok"
+        | none => if verdict == "ok-hyp" then "ok hyp" else if verdict == "ok-nohyp" then "ok nohyp" else "ok"
     | _, _, _, _, _, _, _ => "BADLINE"
   | l => if l.getLast? == some "PANIC" then propfail "panic" else "BADLINE"
 
